@@ -1,6 +1,9 @@
 """C13 - asynchronous WAL: a kill loses only a suffix of recent writes, not the database.
 
-spec:  CrashJudge.tla AsyncOk: the recovered map equals the reference map after some prefix of the applied operation sequence that
+spec:  SimpleDBDisk.tla with Async = TRUE: appends go to a write buffer (wbuf) that reaches the file in arbitrary pieces (BufFlush), a
+       rotation writes it out, a kill loses it; CrashSafe = the recoverable map is the reference map after some prefix of the acknowledged
+       sequence that contains everything before the last rotation - checked exhaustively incl. crashes inside recovery; the negative switch
+       RotateDropsBuffer is rejected.  CrashJudge.tla AsyncOk: the recovered map equals the reference map after some prefix of the applied operation sequence that
        contains at least everything before the last WAL rotation (KVStore.tla crash semantics for the asynchronous log);
        SimpleDBDisk.tla is the exhaustively checked protocol the sessions follow.
 bind:  as C02 (strace, every syscall boundary, real recovery on every image) with EnableAsyncWAL, including sessions that log more
@@ -50,7 +53,8 @@ def run(tier):
     thorough = tier == "thorough"
     binary = common.build_harness()
     import judge
-    judge.model_check("SimpleDBDisk.tla", "MC_Disk_sync.cfg", o, "exhaustive disk protocol (shared with C02)")
+    judge.model_check("SimpleDBDisk.tla", "MC_Disk_async_big.cfg" if thorough else "MC_Disk_async.cfg", o,
+                      "exhaustive disk protocol with the asynchronous WAL (buffered appends, partial flushes, crash anywhere incl. recovery)", timeout=2400)
     kinds = ["norot", "onerot", "manyrot", "wrap", "dio"]
     n = 25 if thorough else 10
     sessions = [("%s-%d" % (kinds[i % 5], i), session(rng, kinds[i % 5])) for i in range(n)]
